@@ -244,7 +244,7 @@ validate_samples = validate_line_samples
 def jobs(tier):
     js = []
     quick = tier == 'quick'
-    for n in (range(0, 11) if quick else range(0, 14)):
+    for n in (range(0, 13) if quick else range(0, 16)):
         js.append({'name': 'names n=%d' % n, 'harness': (H, 'h_names'), 'params': {'n': n}, 'split': 8 if n >= 9 else 1})
     js.append({'name': 'names in dotted dir n=9', 'harness': (H, 'h_names'), 'params': {'n': 9, 'with_dir': True}, 'split': 8})
     for n in (1, 2):
@@ -265,10 +265,10 @@ def jobs(tier):
     return js
 
 
-BOUNDS = {'quick': 'names: every file name of 0-10 bytes over {a . t x p} (spells txtpp, hidden files, multiple dots) also inside a dotted directory; '
+BOUNDS = {'quick': 'names: every file name of 0-12 bytes over {a . t x p} (spells txtpp, hidden files, multiple dots) also inside a dotted directory; '
                    'get_txtpp_file: stems 1-2 bytes, extensions 0/1/2/5 bytes (incl. `txtpp`), both candidate sources present or not; selection: '
                    'every subset of 11 candidate entries (3 source shapes, 5 look-alikes, nested sub-directories) x 18 input lists x recursion',
-          'thorough': 'names up to 13 bytes'}
+          'thorough': 'names up to 15 bytes'}
 ASSUMPTIONS = ['D9: a source whose own extension is `txtpp` twice (x.txtpp.txtpp) is outside the domain (its output is again a txtpp name)',
                'no symlinks; read_dir lists exactly the entries of the FS model (order irrelevant: each file is a separate task)',
                'dependencies are added by the coordinator (C02); here sources have none']
